@@ -45,7 +45,41 @@ def observe(cfg, chunks):
     return out
 
 
+def api_diff(rounds=20000, seed=4):
+    """random operation sequences on io.BytesIO vs PyBytesIO (incl. BytesIO(initial), whose position starts at 0)"""
+    import io
+    import random
+    rnd = random.Random(seed)
+    bad = 0
+    for _ in range(rounds):
+        init = bytes(rnd.choice(b"ab") for _ in range(rnd.randint(0, 3)))
+        a, b = io.BytesIO(init), shim.PyBytesIO(init)
+        for _ in range(rnd.randint(0, 5)):
+            op = rnd.choice(["w", "w", "end", "tell", "get", "seek0"])
+            if op == "w":
+                d = bytes(rnd.choice(b"xy") for _ in range(rnd.randint(0, 3)))
+                ra, rb = a.write(d), b.write(d)
+            elif op == "end":
+                ra, rb = a.seek(0, os.SEEK_END), b.seek(0, os.SEEK_END)
+            elif op == "tell":
+                ra, rb = a.tell(), b.tell()
+            elif op == "seek0":
+                ra, rb = a.seek(0), b.seek(0)
+            else:
+                ra, rb = a.getvalue(), b.getvalue()
+            if ra != rb:
+                bad += 1
+                break
+        if a.getvalue() != b.getvalue() or a.tell() != b.tell():
+            bad += 1
+    return rounds, bad
+
+
 def main():
+    rounds, apibad = api_diff()
+    print("shim API differential: %d random operation sequences vs io.BytesIO, %d mismatches" % (rounds, apibad))
+    if apibad:
+        sys.exit(3)
     files = sorted(glob.glob(os.path.join(REPO, "tests/requests/valid/*.http")) +
                    glob.glob(os.path.join(REPO, "tests/requests/invalid/*.http")))
     n = bad = 0
